@@ -228,6 +228,13 @@ func exec(t []string) string {
 			return "err " + strings.ReplaceAll(o.problem, " ", "-")
 		}
 		return fmt.Sprintf("ok ret=%d front=%s tail=%d last=%d leak=%s", o.ret, lib.IntList(canonFront(o.front, specs)), o.tail, o.last, o.leak)
+	case t[0] == "col.entry" && len(t) == 4:
+		a, e1 := strconv.Atoi(t[1])
+		b, e2 := strconv.Atoi(t[2])
+		if e1 != nil || e2 != nil || a < 0 || b < 0 || a > 64 || b > 64 || (t[3] != "0" && t[3] != "1") {
+			return "bad-op"
+		}
+		return runEntry(a, b, t[3] == "1")
 	case t[0] == "col.guard" && len(t) >= 2:
 		return runGuard(t[1:])
 	}
@@ -239,6 +246,63 @@ type blockClk struct{}
 func (blockClk) MeasureClockOffset(ctx context.Context) (time.Time, time.Duration, error) {
 	<-ctx.Done()
 	return time.Time{}, 0, ctx.Err()
+}
+
+type instantClk struct{}
+
+func (instantClk) MeasureClockOffset(ctx context.Context) (time.Time, time.Duration, error) {
+	return time.Time{}, 0, nil
+}
+
+// runEntry: one call with len(ms)=a, len(refclks)=b on a client that is idle or (busy) has a
+// collection in progress; afterwards one well-formed call (the first one, if accepted, has
+// returned by then).
+func runEntry(a, b int, busy bool) string {
+	var first, next string
+	runBubble(func() {
+		var c client.ReferenceClockClient
+		var release context.CancelFunc
+		var done chan struct{}
+		if busy {
+			var ctx context.Context
+			ctx, release = context.WithCancel(context.Background())
+			done = make(chan struct{})
+			go func() {
+				defer close(done)
+				c.MeasureClockOffsets(ctx, []client.ReferenceClock{blockClk{}}, make([]measurements.Measurement, 1))
+			}()
+			synctest.Wait()
+		}
+		call := func(nms, nclk int) (res string) {
+			defer func() {
+				if r := recover(); r != nil {
+					s := fmt.Sprint(r)
+					switch {
+					case strings.Contains(s, "number of result offsets must be equal"):
+						res = "len-panic"
+					case strings.Contains(s, "too many reference clock offset measurements in progress"):
+						res = "refused"
+					default:
+						res = "panic:" + lib.PanicClass(r)
+					}
+				}
+			}()
+			clks := make([]client.ReferenceClock, nclk)
+			for i := range clks {
+				clks[i] = instantClk{}
+			}
+			c.MeasureClockOffsets(context.Background(), clks, make([]measurements.Measurement, nms))
+			return "accepted"
+		}
+		first = call(a, b)
+		next = call(2, 2)
+		if busy {
+			release()
+			<-done
+		}
+		synctest.Wait()
+	})
+	return "ok " + first + " next=" + next
 }
 
 // runGuard: e = a new goroutine enters MeasureClockOffsets on the shared client (its clock
@@ -498,6 +562,66 @@ func gen(c *lib.Ctx) {
 			}
 		}
 		scenario(c, t0, d, genSpecs(r, n, t0, d, r.Intn(3)))
+	}
+	// What the caller in core/sync does with the slice (informational, no oracle): the same
+	// slice round after round, FaultTolerantMidpoint over all of it. Round 1: every clock
+	// succeeds; round 2: every clock fails. Counted: whether round 2 reports round 1's midpoint.
+	for k := 0; k < c.Scale(5, 50); k++ {
+		n := int(r.Range(1, 7))
+		var off1, off2 time.Duration
+		runBubble(func() {
+			ms := make([]measurements.Measurement, n)
+			round := func(ok bool) time.Duration {
+				start := time.Now()
+				var mu sync.Mutex
+				var rets []int64
+				clks := make([]client.ReferenceClock, n)
+				for i := range clks {
+					clks[i] = &fakeClk{id: i + 1, sp: spec{due: int64(i + 1), ok: ok}, start: start, mu: &mu, rets: &rets}
+				}
+				ctx, cancel := context.WithTimeout(context.Background(), time.Second)
+				defer cancel()
+				var cl client.ReferenceClockClient
+				cl.MeasureClockOffsets(ctx, clks, ms)
+				return measurements.FaultTolerantMidpoint(ms).Offset
+			}
+			off1 = round(true)
+			off2 = round(false)
+			synctest.Wait()
+		})
+		if off1 != 0 && off2 == off1 {
+			c.Count("reuse:all-clocks-failed-yet-previous-midpoint-reported")
+		} else {
+			c.Count("reuse:other")
+		}
+	}
+	// entry checks: length mismatch (before the guard), busy / idle client
+	for k := 0; k < c.Scale(40, 400); k++ {
+		a, b := int(r.Range(0, 5)), int(r.Range(0, 5))
+		if r.Chance(40) {
+			b = a
+		}
+		busy := r.Bool()
+		op := fmt.Sprintf("col.entry %d %d %d", a, b, map[bool]int{false: 0, true: 1}[busy])
+		ans := c.Do(op)
+		want := "accepted"
+		switch {
+		case a != b:
+			want = "len-panic"
+			c.Count("entry:len-mismatch")
+		case busy:
+			want = "refused"
+			c.Count("entry:busy")
+		default:
+			c.Count("entry:idle")
+		}
+		wantNext := "accepted"
+		if busy {
+			wantNext = "refused"
+		}
+		if ans != "ok "+want+" next="+wantNext {
+			c.Fail("c16:entry", "entry of MeasureClockOffsets: expected "+want+" then "+wantNext+", got "+ans, []string{op}, nil)
+		}
 	}
 	// CAS guard
 	for k := 0; k < c.Scale(60, 600); k++ {
